@@ -5,13 +5,18 @@ from props._read import Part
 PROP = 'C05'
 PROPS_MODULES = ['LA.Props.C05']
 GEN = ['Limits']
-ASSUMPTIONS = ['single data node; seek and multi-volume switching not yet in the model',
-               'malloc never fails']
+ASSUMPTIONS = ['malloc never fails',
+               'client open/close/switch callbacks succeed; switching to a data node (re)opens it at offset 0 (as file_switch does)',
+               'seek callback is file-like (lseek semantics) and honest about the offset it reaches; int64 overflow of offset + position not modelled',
+               'NoSeekSkip: a source with a seek callback also has a skip callback (the seeker branch of client_skip_proxy is an open finding)',
+               'SpecSafe: no read between a seek refused for an out-of-range target and the next successful seek (open finding seek-failure-desync)']
 TRUSTED = []
 MANIFEST = {
-    'text': 'partial: Lean refinement theorems for the read-ahead/consume window of archive_read.c (every format reader '
-            'sees the archive only through it): observations of any interface program depend only on the concatenation '
-            'of the callback blocks, not on the partition or on skip capability. Tied to the C by the rda engine.',
+    'text': 'partial: Lean refinement theorems for the read-ahead/consume/seek interface of archive_read.c (every format '
+            'reader sees the archive only through it): observations of any interface program, seeks included '
+            '(SEEK_SET/CUR/END across data-node borders), depend only on the concatenation of the bytes, not on the block '
+            'partition before or after a seek, on skip capability, or on how the bytes are spread over the volumes of a '
+            'multivolume set. Tied to the C by the rda engine (exact comparison, scripted and seekable sources).',
     'technique': 'Lean 4 refinement proof (representation invariant + abstraction to the byte stream, induction over client programs) + model/C differential correspondence',
     'note': 'Unmodelled format parsers are covered only by the interface contract; see DESIGN.md C05.',
 }
